@@ -29,6 +29,10 @@ def lanWfB (k : Nat) (d : List Nat) : Bool :=
 /-- a description string: at most 12 characters, none of them NUL, one byte each -/
 def descrWfB (d : List Nat) : Bool := decide (d.length ≤ 12) && d.all fun c => decide (0 < c) && decide (c < 256)
 
+def powerReadingWfB (p : PowerReading) : Bool :=
+  decide (p.current < 65536) && decide (p.minimum < 65536) && decide (p.maximum < 65536) && decide (p.average < 65536)
+  && decide (p.timestamp < 4294967296) && decide (p.period < 4294967296)
+
 def wfB (s : BmcState) : Bool :=
   let d := s.device
   let w := s.watchdog
@@ -55,6 +59,9 @@ def wfB (s : BmcState) : Bool :=
   && decide (s.pmGlobal < 16) && decide (s.hpm.components < 256) && decide (s.hpm.selftest2 < 256)
   && decide (s.hpm.rollbackStatus < 256) && optAll s.hpm.rollbackEstimate (· < 256)
   && allB s.hpm.compDescr (fun _ d => descrWfB d)
+  && decide (s.dcmi.confMajor < 256) && decide (s.dcmi.confMinor < 256)
+  && allB s.dcmi.power (fun _ p => powerReadingWfB p)
+  && allB s.dcmi.sensors (fun _ l => l.all (· < 65536))
 
 def ledCmdInRangeB : LedCmd → Bool
   | .override (.blink o n) color => decide (1 ≤ o) && decide (o ≤ 250) && decide (n < 256) && decide (color < 16)
@@ -109,6 +116,8 @@ def inRangeB : Call → Bool
   | .setSignalingClass iface ch cls => decide (iface < 4) && decide (ch < 64) && decide (cls < 16)
   | .getSignalingClass iface ch => decide (iface < 4) && decide (ch < 64)
   | .getComponentDescription id => decide (id < 256)
+  | .getDcmiCapabilities sel => decide (sel < 256)
+  | .getPowerReading mode attrs => decide (mode < 256) && decide (attrs < 256)
   | _ => true
 
 end PyIpmi.Spec.Bmc
